@@ -375,6 +375,11 @@ impl<'a> Ctx<'a> {
                     out.push(format!("let {t} ← umod {l} {r}"));
                     t
                 },
+                // bit operations on `usize` values are the operations on the natural numbers they denote
+                "&" => format!("({l} &&& {r})"),
+                "|" => format!("({l} ||| {r})"),
+                "^" => format!("({l} ^^^ {r})"),
+                ">>" => format!("({l} >>> {r})"),
                 _ => {
                     self.err(sp, format!("unsupported usize operator {op}"));
                     "sorry_unsupported".into()
